@@ -17,6 +17,19 @@ import (
 type toks struct {
 	t []string
 	i int
+	// byte slices handed to the code under test: the caller still owns them and overwrites
+	// them after the call (scribble), as a caller reusing its buffers would
+	given [][]byte
+}
+
+// scribble overwrites every byte slice that was passed to the code under test.
+func (p *toks) scribble() {
+	for _, b := range p.given {
+		for i := range b {
+			b[i] ^= 0xA5
+		}
+	}
+	p.given = nil
 }
 
 func (p *toks) next() (string, bool) {
@@ -67,6 +80,13 @@ func (p *toks) hexb() []byte {
 	if !ok {
 		bad("bad hex %q", t)
 	}
+	return b
+}
+
+// hexbGiven: a byte slice that is handed to the code under test and overwritten afterwards
+func (p *toks) hexbGiven() []byte {
+	b := p.hexb()
+	p.given = append(p.given, b)
 	return b
 }
 
@@ -289,7 +309,7 @@ func implStep(cur *ast.DataMessage, step []string) (next *ast.DataMessage, out s
 			s, f, w := p.nat(), p.nat(), p.nat()
 			dir := p.hexb()
 			sid := p.nat()
-			sys := p.hexb()
+			sys := p.hexbGiven()
 			item := p.node().Build()
 			next = ast.NewHSMSDataMessage(string(nm), s, f, w, string(dir), item, sid, sys)
 		case "wait":
@@ -317,11 +337,12 @@ func implStep(cur *ast.DataMessage, step []string) (next *ast.DataMessage, out s
 				return
 			}
 			sid := p.nat()
-			sys := p.hexb()
+			sys := p.hexbGiven()
 			next = cur.SetSessionIDAndSystemBytes(sid, sys)
 		default:
 			bad("bad step %q", op)
 		}
+		p.scribble()
 		if out == "" {
 			out = showMsg(next)
 		}
@@ -367,6 +388,10 @@ func implDec(b []byte) string {
 			res = "fail"
 			return
 		}
+		// the receive buffer is reused by its owner: the decoded message must not depend on it
+		for i := range b {
+			b[i] ^= 0xA5
+		}
 		switch mm := m.(type) {
 		case *ast.DataMessage:
 			res = "data " + showMsg(mm)
@@ -383,29 +408,31 @@ func implDec(b []byte) string {
 }
 
 func implCtrl(p *toks) string {
+	// the caller's slices are overwritten after the constructor returns, before anything is read
+	show := func(m ast.HSMSMessage) string { p.scribble(); return showCtrl(m) }
 	k, _ := p.next()
 	switch k {
 	case "raw":
-		return showCtrl(ast.NewHSMSControlMessage(p.hexb()))
+		return show(ast.NewHSMSControlMessage(p.hexbGiven()))
 	case "selectreq":
 		sid := p.nat()
-		return showCtrl(ast.NewHSMSMessageSelectReq(uint16(sid), p.hexb()))
+		return show(ast.NewHSMSMessageSelectReq(uint16(sid), p.hexbGiven()))
 	case "deselectreq":
 		sid := p.nat()
-		return showCtrl(ast.NewHSMSMessageDeselectReq(uint16(sid), p.hexb()))
+		return show(ast.NewHSMSMessageDeselectReq(uint16(sid), p.hexbGiven()))
 	case "linktestreq":
-		return showCtrl(ast.NewHSMSMessageLinktestReq(p.hexb()))
+		return show(ast.NewHSMSMessageLinktestReq(p.hexbGiven()))
 	case "separatereq":
 		sid := p.nat()
-		return showCtrl(ast.NewHSMSMessageSeparateReq(uint16(sid), p.hexb()))
+		return show(ast.NewHSMSMessageSeparateReq(uint16(sid), p.hexbGiven()))
 	case "rejectreq":
 		sid, pt, st := p.nat(), p.nat(), p.nat()
-		sys := p.hexb()
+		sys := p.hexbGiven()
 		rc := p.nat()
-		return showCtrl(ast.NewHSMSMessageRejectReq(uint16(sid), byte(pt), byte(st), sys, byte(rc)))
+		return show(ast.NewHSMSMessageRejectReq(uint16(sid), byte(pt), byte(st), sys, byte(rc)))
 	case "twice":
 		kind, _ := p.next()
-		req := ast.NewHSMSControlMessage(p.hexb())
+		req := ast.NewHSMSControlMessage(p.hexbGiven())
 		c1, c2 := p.nat(), p.nat()
 		mk := func(code int) ast.HSMSMessage {
 			switch kind {
@@ -416,18 +443,18 @@ func implCtrl(p *toks) string {
 			}
 			return ast.NewHSMSMessageLinktestRsp(req)
 		}
-		r1 := showCtrl(mk(c1))
-		r2 := showCtrl(mk(c2))
-		return r1 + " | " + r2 + " | " + showCtrl(req)
+		m1, m2 := mk(c1), mk(c2)
+		p.scribble()
+		return showCtrl(m1) + " | " + showCtrl(m2) + " | " + showCtrl(req)
 	case "selectrsp":
-		req := ast.NewHSMSControlMessage(p.hexb())
-		return showCtrl(ast.NewHSMSMessageSelectRsp(req, byte(p.nat())))
+		req := ast.NewHSMSControlMessage(p.hexbGiven())
+		return show(ast.NewHSMSMessageSelectRsp(req, byte(p.nat())))
 	case "deselectrsp":
-		req := ast.NewHSMSControlMessage(p.hexb())
-		return showCtrl(ast.NewHSMSMessageDeselectRsp(req, byte(p.nat())))
+		req := ast.NewHSMSControlMessage(p.hexbGiven())
+		return show(ast.NewHSMSMessageDeselectRsp(req, byte(p.nat())))
 	case "linktestrsp":
-		req := ast.NewHSMSControlMessage(p.hexb())
-		return showCtrl(ast.NewHSMSMessageLinktestRsp(req))
+		req := ast.NewHSMSControlMessage(p.hexbGiven())
+		return show(ast.NewHSMSMessageLinktestRsp(req))
 	}
 	bad("bad ctrl op %q", k)
 	return ""
